@@ -1,4 +1,5 @@
 import Mutagen.Proofs.Reconcile
+import Mutagen.Proofs.StagingReadOnly
 /-!
 # C02 — directional modes respect their direction and protect the right side
 
@@ -58,8 +59,42 @@ mode). -/
 example : (Reconcile (some exampleFile1) (some exampleFile2) (some exampleFile1) .twoWaySafe).beta ≠ [] := by
   rw [example_modification_propagates]; simp
 
--- TODO theorem readOnly_refuses (DESIGN §8 C02): a one-way alpha endpoint refuses Stage/Transition and
---   leaves its root unchanged — endpoint-level model (`Model/PollWatch.Endpoint`), belongs to the
---   session-level streams, not to the reconciliation core.
+/-! ## The endpoint half: a one-way alpha endpoint is read-only
+
+Model: `Mutagen.Model.Staging` (`endpoint/local`: `NewEndpoint` sets
+`readOnly := alpha && unidirectional`; `Stage` and `Transition` test it first).
+Tied to the code by the C41 stream and, under this check, by its `-ro` variant
+(every case a read-only endpoint; Go oracle: every Stage/Transition answers the
+read-only error and the root walk is unchanged). -/
+
+/-- A read-only endpoint refuses every `Stage` and every `Transition`,
+whatever the arguments and the call state, and the refusal changes nothing
+(not the root, not the staging store, not the scan flags). -/
+theorem readOnly_refuses (s : Staging.St) (hro : s.readOnly = true) :
+    (∀ paths digests hint, Staging.stage s paths digests hint = (s, .err .readOnly)) ∧
+    (∀ ts, Staging.transition s ts = (s, .err .readOnly)) :=
+  ⟨Proofs.Staging.stage_readOnly s hro, Proofs.Staging.transition_readOnly s hro⟩
+
+/-- History form: after *any* sequence of endpoint calls (scans, staging
+requests, supplied content, transitions) interleaved with edits of the root by
+other programs, a read-only endpoint is still read-only and its root is the
+initial root with exactly the other programs' edits applied — the endpoint
+itself never wrote to it. -/
+theorem readOnly_root_untouched (s : Staging.St) (hro : s.readOnly = true) (ops : List Staging.Op) :
+    (Staging.runOps s ops).readOnly = true ∧
+    (Staging.runOps s ops).root = (Proofs.Staging.editsOf ops).foldl Staging.applyEdit s.root :=
+  Proofs.Staging.runOps_readOnly ops s hro
+
+/-- With no outside edits the root is literally unchanged. -/
+theorem readOnly_root_unchanged (s : Staging.St) (hro : s.readOnly = true) (ops : List Staging.Op)
+    (hne : Proofs.Staging.editsOf ops = []) : (Staging.runOps s ops).root = s.root := by
+  rw [(readOnly_root_untouched s hro ops).2, hne]; rfl
+
+/-! Non-vacuity: the initial state of a read-only endpoint satisfies the
+hypothesis, and a writable endpoint in the same state answers differently (so the
+refusal is due to the flag, not a property of the model's `stage`/`transition` as such). -/
+example : (Staging.init 0 true []).readOnly = true := rfl
+example : Staging.transition (Staging.init 0 false []) [] = (Staging.init 0 false [], .err .noScan) := rfl
+example : (Staging.stage (Staging.init 0 false []) [] [] (fun _ => none)).2 = .ok [] := rfl
 
 end Mutagen.Properties.C02
